@@ -15,9 +15,10 @@ CORR = ("Correspondence: the real code (imported from /repo) and the executable 
         "(spec layer) so a disagreement comes with a failing input. ")
 
 TRANSLATOR = {
-    'C04': "find_token, find_token_reverse, try_find_line",
-    'C11': "find_token, find_token_reverse, try_find_line",
-    'C13': "find_token, find_token_reverse, try_find_line",
+    'C04': "find_token, find_token_reverse, try_find_line, try_find_line_with_date, __getitem__",
+    'C11': "find_token, find_token_reverse, try_find_line, try_find_line_with_date, __getitem__",
+    'C13': "find_token, find_token_reverse, try_find_line, try_find_line_with_date, __getitem__",
+    'C15': "allocations, _allocate_next, _add_to_store",
     'C16': "the window part of __init__ + since_date, _line_date_is_valid, apply_to_line",
     'C18': "num_parallel_tasks",
 }
@@ -30,7 +31,7 @@ def translator_text(pid):
     return (f"Translator tie (DESIGN 0.48): {fns} are re-translated from /repo's source into Lean "
             "on every run (harness/vh/pytolean.py) and proved EQUAL to the model functions "
             "(bridge theorems Sk.Gen.bridge_*, re-checked against the new text when the source "
-            "changed; a concrete disagreement is replayed on the real code). ",
+            "changed). ",
             "The translator and SkModel/Gen/PyPrim.lean (meaning of file read/seek, bytes.find, "
             "Python integer operators) are trusted for the bridge; a function that leaves the "
             "translatable fragment falls back to the correspondence tie alone (recorded in the "
@@ -269,7 +270,7 @@ def main():
             'serves_properties': [c['property_id'] for c in checks],
             'kind_free_text': "hand-written executable Lean 4 model + kernel-checked theorems; "
                               "differential correspondence check of the model against /repo; "
-                              "for seven functions also a Python-to-Lean translator whose output "
+                              "for twelve functions also a Python-to-Lean translator whose output "
                               "is proved equal to the model (bridge theorems)",
         }],
         'checks': checks,
